@@ -69,6 +69,14 @@ Definition armed_ids (s : pst) : list nat :=
   map fst (filter (fun p => match t_stat (snd p) with Armed => true | _ => false end)
                   (combine (seq 0 (length (timers s))) (timers s))).
 
+(* ---- a failing output stream --------------------------------------------------------------
+   update() and exit() write the status line as their LAST action under the lock (exit() writes the
+   elapsed time after releasing it): when the stream raises there, the exception leaves the method
+   after the protocol state has changed.  [PFail o] is operation [o] whose print raises. *)
+Inductive fop := POk (o : op) | PFail (o : op).
+Definition erase (f : fop) : op := match f with POk o | PFail o => o end.
+Definition fstep (s : pst) (f : fop) : pst := step s (erase f).
+
 (* ---- the code before the repair ------------------------------------------------------ *)
 Inductive cbpc := CbIdle | CbCancelled | CbAssigned (i : nat).
 Record ost := { o_timers : list timer; o_tracked : nat; o_cb : cbpc; o_done : bool }.
